@@ -142,6 +142,12 @@ def run(case, bct, REC):
                     ep, en = O.clustering_zhang(Sp), O.clustering_zhang(Sn)
                     good = close(res[0], ep, rtol=1e-9, atol=1e-12) and close(res[1], en, rtol=1e-9, atol=1e-12)
                     REC.check(PROP, 'clustering_coef_wu_sign', 'values_zhang', good, {'W': S, 'got': list(res), 'expected': [ep, en]})
+                for alt in ('Zhang',):   # the capitalised spellings are accepted too
+                    ok, res = call(REC, PROP, 'clustering_coef_wu_sign', bct.clustering_coef_wu_sign, S.copy(), coef_type=alt)
+                    if ok:
+                        ep, en = O.clustering_zhang(Sp), O.clustering_zhang(Sn)
+                        REC.check(PROP, 'clustering_coef_wu_sign', 'values_zhang', close(res[0], ep, rtol=1e-9, atol=1e-12) and close(res[1], en, rtol=1e-9, atol=1e-12),
+                                  {'W': S, 'coef_type': alt, 'got': list(res)})
                 ok, res = call(REC, PROP, 'clustering_coef_wu_sign', bct.clustering_coef_wu_sign, S.copy(), coef_type='costantini')
                 if ok:
                     ec = O.clustering_costantini(S)
